@@ -36,10 +36,21 @@ def units(tier):
     add("D=3 cancel=2 cancel2=0 outer-behind-shield", D=3, cancel=2, cancel2=0, J=1, post0=True)
     add("D=3 cancel=1 toggle-on-inner", D=3, cancel=1, toggle=(2, True), J=1, post0=True)
     if not quick:
-        add("D=3 cancel=0 T=2", D=3, cancel=0, T=2)
-        add("D=3 cancel=2 cancel2=0", D=3, cancel=2, cancel2=0)
+        import itertools as _it
+
         add("D=2 cancel=0 eager child", D=2, cancel=0, in_child=True, eager=True)
-        add("D=3 cancel=1 toggle-on", D=3, cancel=1, toggle=(2, True))
+        # depth 3 with every concrete shield vector (8 exploration roots per shape instead of one huge one)
+        for shv in _it.product((False, True), repeat=3):
+            tag = "".join("S" if x else "-" for x in shv)
+            add("D=3 cancel=0 T=2 shields=%s" % tag, D=3, cancel=0, T=2, J=1, shields=shv)
+            add("D=3 cancel=2 cancel2=0 shields=%s" % tag, D=3, cancel=2, cancel2=0, shields=shv)
+            add("D=3 cancel=1 cancel2=2 shields=%s" % tag, D=3, cancel=1, cancel2=2, shields=shv)
+            for lv in (1, 2):
+                add("D=3 cancel=0 toggle=(%d,%s) shields=%s" % (lv, not shv[lv], tag), D=3, cancel=0, toggle=(lv, not shv[lv]), shields=shv, J=1)
+        for shv in _it.product((False, True), repeat=4):
+            if sum(shv) == 1:
+                tag = "".join("S" if x else "-" for x in shv)
+                add("D=4 cancel=3 cancel2=0 shields=%s" % tag, D=4, cancel=3, cancel2=0, shields=shv, T=1, J=1, post0=True)
     return us
 
 
